@@ -118,6 +118,30 @@ func faultClaim(prog []ioOp, f refamf.Fault, dlSent int) (inClaim bool, why stri
 			}
 		}
 		return false, "close-followed-only-by-immediate-writes", -1, -1
+	case "close-after-dl":
+		// the AMF sends downlink j and is gone (its receive side is shut down before j is sent): after the emulator
+		// has read j, every write fails and every further read finds end-of-file
+		r, at := -1, -1
+		for p, o := range prog {
+			if o.Kind != 'W' {
+				r++
+				if r == f.Index {
+					at = p
+					break
+				}
+			}
+		}
+		if at < 0 {
+			return false, "close-after-dl:answer-never-read", -1, -1
+		}
+		if at == len(prog)-1 {
+			return false, "close-after-dl:nothing-follows-the-read", -1, -1
+		}
+		o := prog[at+1]
+		if o.Kind == 'W' {
+			return true, "close-after-dl:write-fails:" + o.Proc, -1, o.Op
+		}
+		return true, "close-after-dl:read-fails:" + o.Proc, -1, o.Op
 	case "garbage":
 		r, w := -1, 0
 		for _, o := range prog {
@@ -261,7 +285,7 @@ func evalC19(test string) func(c *peCase) evalResult {
 	}
 }
 
-var garbageFamilies = []string{"prefix", "choice3", "length"}
+var garbageFamilies = []string{"prefix", "choice3", "length", "oversize2048", "oversize4096"}
 
 // enumerateFaults runs the scenario fault-free and returns one case per (index, kind).
 func enumerateFaults(t *testing.T, r *ev.Rec, test string, base *peCase, seed int) []*peCase {
@@ -297,7 +321,7 @@ func enumerateFaults(t *testing.T, r *ev.Rec, test string, base *peCase, seed in
 	draw := rapid.Custom(func(rt *rapid.T) []refamf.Fault {
 		var fs []refamf.Fault
 		for j, n := range dlLens {
-			fam := garbageFamilies[rapid.IntRange(0, 2).Draw(rt, fmt.Sprintf("family%d", j))]
+			fam := garbageFamilies[rapid.IntRange(0, len(garbageFamilies)-1).Draw(rt, fmt.Sprintf("family%d", j))]
 			f := refamf.Fault{Kind: "garbage", Index: j, Garbage: fam}
 			if fam == "prefix" {
 				switch rapid.IntRange(0, 3).Draw(rt, fmt.Sprintf("plen_kind%d", j)) {
@@ -322,6 +346,11 @@ func enumerateFaults(t *testing.T, r *ev.Rec, test string, base *peCase, seed in
 	for _, f := range draw {
 		c := *base
 		c.Sc.Fault = f
+		cases = append(cases, &c)
+	}
+	for j := range dlLens {
+		c := *base
+		c.Sc.Fault = refamf.Fault{Kind: "close-after-dl", Index: j}
 		cases = append(cases, &c)
 	}
 	return cases
